@@ -22,10 +22,13 @@ import density
 import quadrature as Q
 
 
+SHARED_KEY = 'cdfcache-one-dict-shared-by-all-parameters'
+
+
 def _key(key, payload):
     """Stable id of the failing input / call site."""
     if payload.get('kind', '').startswith('history') and payload.get('caches_shared'):
-        return 'cdfcache-one-dict-shared-by-all-parameters'
+        return SHARED_KEY
     return key
 
 
@@ -45,11 +48,28 @@ def run(chk, tier, proof_ok):
     chk.obligations.append(('correspondence suite `density` (model = code)', not divs, []))
     broken = (not proof_ok) or bool(divs) or not distinct
     findings, agg = Q.finish_units(handle)
-    if broken and not findings and tier == 'quick':
-        # a proof obligation or the correspondence is broken and the light search found no failing
-        # input: run the full search before reporting `no-failing-input-found`
+
+    def new_inputs(fs):
+        """failing inputs that are not recorded known findings"""
+        return [f for f in fs if _key(f[0], f[2]) not in chk.known]
+
+    def unexplained():
+        """broken obligations that no failing input found so far accounts for: a shared cache dict
+        explains the `distinct caches` obligation, nothing else is explained by a known finding"""
+        keys = {_key(f[0], f[2]) for f in findings}
+        out = []
+        for o in chk.broken_obligations():
+            if o[0].startswith('C02_cache_coherent applicable') and SHARED_KEY in keys:
+                continue
+            out.append(o)
+        return out
+
+    if unexplained() and not new_inputs(findings) and tier == 'quick':
+        # a proof obligation or the correspondence is broken and the light search found no (new)
+        # failing input: run the full search before reporting `no-failing-input-found`
         units = Q.plan_units(chk.seed, 'thorough', full=True)
-        findings, agg2 = Q.run_units(units, workers=workers)
+        more, agg2 = Q.run_units(units, workers=workers)
+        findings = findings + more
         for k, v in agg2.items():
             if isinstance(v, list):
                 agg.setdefault(k, []).extend(v)
@@ -113,8 +133,9 @@ def run(chk, tier, proof_ok):
     trouble = agg.get('machinery_trouble', 0)
     if trouble:
         chk.notes.append('search machinery could not drive %d units: %s' % (trouble, '; '.join(agg.get('trouble', [])[:3])[:600]))
-    if (broken or trouble) and not findings and not chk.known_hit:
-        names = [o[0] for o in chk.broken_obligations()]
+    left = unexplained()
+    if (left or trouble) and not chk.violations:
+        names = [o[0] for o in left]
         if trouble and not names:
             names = ['failing-input search: the generator stand-in could not be routed for %d units' % trouble]
         first = divs[0] if divs else None
@@ -124,9 +145,7 @@ def run(chk, tier, proof_ok):
                                                                       first['model'][:120], first['real'][:120])
         chk.violation('unproved', text, {'no_longer_checks': names, 'divergences': divs[:10],
                                          'how_to_replay': './check C02 --tier thorough'}, False)
-    elif broken and not findings and chk.known_hit:
-        chk.notes.append('broken obligations attributed to known findings: ' + '; '.join(o[0][:120] for o in chk.broken_obligations()))
-    elif divs and findings:
+    elif divs:
         chk.notes.append('correspondence divergences (%d), first: %s' % (len(divs), json.dumps(divs[0])[:400]))
 
 
